@@ -4,7 +4,7 @@
    arithmetic; DATEDIFF/TIMESTAMPDIFF; time.Date normalisation used by STR_TO_DATE). *)
 From Coq Require Import List NArith ZArith Bool.
 Import ListNotations.
-From GMS Require Import Codec.C31Date Codec.C31DateProofs Codec.C31Format Codec.C31FormatProofs.
+From GMS Require Import Codec.C31Date Codec.C31DateProofs Codec.C31Format Codec.C31FormatProofs Codec.C31Parse Codec.C31ParseInverse.
 Open Scope Z_scope.
 
 (* civil calendar round trip, both directions, every day number and every year (no range bound) *)
@@ -115,6 +115,44 @@ Print Assumptions C31_add_subday_exact.
 Theorem C31_datediff_ignores_time_of_day : forall a ta b tb, datediff_dt a ta b tb = datediff_go a b.
 Proof. exact datediff_dt_ignores_time. Qed.
 Print Assumptions C31_datediff_ignores_time_of_day.
+
+(* THE FORMAT / PARSE INVERSE (first sentence of the property), over the renderer model of date_format.go and the
+   parser model of planbuilder/dateparse (Codec/C31Parse.v):  STR_TO_DATE(DATE_FORMAT(d, fmt), fmt) = d  for every
+   valid moment d (years 0..9999, microseconds included) and every format that
+   - tokenises ([tokens fmt = FOk toks]) into the specifiers %Y %m %c %d %e %H %k %i %s %S %f %T %% and ASCII literal
+     characters that are neither digits nor control whitespace ([separated]: no %y, no AM/PM specifiers),
+   - follows every greedy numeric specifier (%c %e %H %k %i %s %S %f read ALL following digits) by a literal
+     or the end of the format ([separated], the guard that excludes the adjacent-field finding),
+   - does not end in a space ([ends_ok]) and determines year, month, day, hour, minute and second ([complete]);
+   microseconds must be zero unless the format contains %f. *)
+Theorem C31_format_parse_inverse : forall fmt toks m,
+  tokens fmt = FOk toks -> separated toks = true -> ends_ok toks = true -> complete toks = true ->
+  valid_moment m -> (has_spec 102 toks = true \/ us m = 0) ->
+  exists s, render fmt m = Some s /\
+            str_to_date s fmt = SVal (yr m, mo m, dy m) (((hh m * 60 + mi m) * 60 + ss m) * 1000000 + us m).
+Proof. exact format_parse_inverse. Qed.
+Print Assumptions C31_format_parse_inverse.
+
+(* the guard is satisfiable: the canonical format '%Y-%m-%d %H:%i:%s' meets it *)
+Example C31_format_parse_inverse_nonvacuous :
+  exists toks, tokens canonical_fmt = FOk toks /\ separated toks = true /\ ends_ok toks = true /\ complete toks = true.
+Proof. exact canonical_is_guarded. Qed.
+Print Assumptions C31_format_parse_inverse_nonvacuous.
+
+(* and both exclusions are necessary: adjacent greedy fields, and the ignored AM/PM flag *)
+Theorem C31_format_parse_adjacent_fields_refuted :
+  let fmt := [37;89;37;109;37;100;37;72;37;105;37;115]%N in
+  let m := {| yr := 2032; mo := 2; dy := 28; hh := 23; mi := 58; ss := 49; us := 0 |} in
+  exists s, render fmt m = Some s /\ str_to_date s fmt = SNull.
+Proof. exact greedy_adjacent_fails. Qed.
+Print Assumptions C31_format_parse_adjacent_fields_refuted.
+
+Theorem C31_format_parse_ampm_refuted :
+  let fmt := [37;89;45;37;109;45;37;100;32;37;114]%N in
+  let m := {| yr := 2024; mo := 1; dy := 2; hh := 15; mi := 4; ss := 5; us := 0 |} in
+  exists s, render fmt m = Some s /\ str_to_date s fmt = SVal (2024, 1, 2) (((3 * 60 + 4) * 60 + 5) * 1000000).
+Proof. exact ampm_ignored. Qed.
+Print Assumptions C31_format_parse_ampm_refuted.
 
 Example C31_nonvacuous :
   days_from_civil (1970, 1, 1) = 0 /\ civil_from_days 19782 = (2024, 2, 29) /\
